@@ -325,6 +325,10 @@ def compare_spec(out, impl_groups, name, spec, exact):
     merges = spec.get(name + "_merges", [])
     scale = {s["name"]: s for s in spec[name + "_scale"]}
     icols, iorder = flatten_impl(impl_groups, name)
+    if scols and len(scols[0][1]) == 0:
+        # no row qualifies: the loader leaves such variables out of the group
+        bad = [k for k, (vals, _, _) in icols.items() if len(vals) > 0]
+        return f"{name}: Spec has no row but {bad} have rows" if bad else None
     comp_of = {}
     for raw, comps in merges:
         for ci, c in enumerate(comps):
